@@ -78,6 +78,15 @@ FROZEN_SUMMARY = {
 }
 
 
+# calls between the functions above on the pinned tree (confirmed by reading): what the callee may reach, the caller may reach
+PINNED_CALLS = {
+    "new_require": {"_cached_mod", "_save_mod", "new_loader"},
+    "new_loadData": {"new_loader", "mw_clone"},
+    "new_loadJsonData": {"new_loader", "mw_clone"},
+    "_lua_reset_env": {"_lua_io_flush", "mw_clone"},
+}
+
+
 def _is_denied(path: str) -> bool:
     if path in SAFE_GLOBALS:
         return False
@@ -210,20 +219,100 @@ def rule_r3(ctx) -> RuleResult:
                 if fo.kind == "function":
                     exposed[k + "." + fk] = (fo.node, node)
     rr.instances["exposed_sandbox_functions"] = sorted(exposed)
+
+    # what a function reaches counts transitively through the file's own functions, so that inlining a mediator
+    # (`_cached_mod` into `new_require`) or extracting one does not change the verdict: compared are the capability sets
+    # reachable from each exposed function, not where in the file the access is written
+    def callees(f) -> dict:
+        out = {}
+        for c in L.calls_in(f):
+            if c.kind != "call":
+                continue
+            o = L.origin_of(p1, c.func)
+            if o.kind == "function" and o.node is not f:
+                out[id(o.node)] = o.node
+        return out
+
+    def closure_touched(f) -> set:
+        seen, todo, acc = {id(f)}, [f], set()
+        while todo:
+            g = todo.pop()
+            acc |= {x for x in L.globals_touched(p1, g) if _is_denied(x) or x == "package.loaded"}
+            for k_, h in callees(g).items():
+                if k_ not in seen:
+                    seen.add(k_)
+                    todo.append(h)
+        return acc
+
+    def closure_allowed(name: str, seen=None) -> set:
+        seen = seen if seen is not None else set()
+        if name in seen:
+            return set()
+        seen.add(name)
+        acc = set(FROZEN_SUMMARY.get(name, (set(), ""))[0])
+        for g in PINNED_CALLS.get(name, ()):
+            acc |= closure_allowed(g, seen)
+        return acc
+
     for key, (f, node) in sorted(exposed.items()):
         name = f.name or key
-        touched = {g for g in L.globals_touched(p1, f) if _is_denied(g) or g == "package.loaded"}
-        # a nested definition of another exposed function inside (e.g. _lua_io_flush in _lua_reset_env) is accounted to the outer one
-        allowed, why = FROZEN_SUMMARY.get(name, (set(), ""))
-        extra = {g for g in touched if g not in allowed and g.split(".")[0] not in {a for a in allowed if "." not in a}}
+        touched = closure_touched(f)
+        allowed, why = closure_allowed(name), FROZEN_SUMMARY.get(name, (set(), ""))[1]
+        extra = {g for g in touched if g not in allowed and g.split(".")[0] not in {a_ for a_ in allowed if "." not in a_}}
         if not extra:
             rr.ok("env." + key, "{} reaches {}".format(name, sorted(touched) or "no denied capability"),
                   {"exposed": key, "function": name, "denied_capabilities_reached": sorted(touched), "reason": why})
         else:
             rr.bad(Finding("C06.R3", P1, "env." + key, "{} -> {}".format(name, ", ".join(sorted(extra))),
-                           "a function exposed to page modules reaches the denied host capability {} (not among the uses recorded for it)".format(
-                               ", ".join(sorted(extra))), f.line))
+                           "a function exposed to page modules reaches the denied host capability {} (not among the uses recorded for it "
+                           "and the functions it calls)".format(", ".join(sorted(extra))), f.line))
+    # the compile primitives turn text into code: wherever they are called, the text must be what the Python loader
+    # returned for a module name (page store / shipped files), never a value supplied by the caller
+    n_compile = 0
+    for f in p1.functions:
+        for c in L.calls_in(f):
+            if c.kind != "call":
+                continue
+            o = L.origin_of(p1, c.func)
+            if o.kind == "global" and o.path in ("loadstring", "load", "loadfile", "dofile"):
+                n_compile += 1
+                arg = c.args[0] if c.args else None
+                src = None
+                if arg is not None and arg.kind == "name":
+                    d = p1.res.ref.get(arg)
+                    vals = _all_values(f, arg.id) if d is not None and d.kind not in ("param", "loopvar") else None
+                    if vals is not None and vals and all(v.kind in ("nil",) or (v.kind == "call" and L.text(v.func) == "_python_loader") for v in vals):
+                        src = "_python_loader(...)"
+                if src:
+                    rr.ok("_sandbox_phase1.lua:" + (f.name or "?"), "{}({}) compiles the text returned by {}".format(o.path, L.text(arg), src))
+                else:
+                    rr.bad(Finding("C06.R3", P1, f.name or "?", L.text(c)[:80],
+                                   "text that does not provably come from the Python module loader is compiled into code", c.line))
+    if n_compile == 0:
+        raise AnalysisError("no call of loadstring/load found in _sandbox_phase1.lua (2 confirmed by hand)")
     return rr
+
+
+def _all_values(fn, name: str):
+    """every expression assigned to local `name` inside fn (None when an assignment cannot be matched to one value)"""
+    out = []
+    for n in L.walk(fn):
+        if n.kind == "local" and name in n.names:
+            i = n.names.index(name)
+            if not n.exprs:
+                continue
+            if i < len(n.exprs) and len(n.exprs) == len(n.names):
+                out.append(n.exprs[i])
+            else:
+                return None
+        elif n.kind == "assign":
+            for i, t in enumerate(n.targets):
+                if t.kind == "name" and t.id == name:
+                    if len(n.exprs) == len(n.targets):
+                        out.append(n.exprs[i])
+                    else:
+                        return None
+    return out
 
 
 def rule_r4(ctx) -> RuleResult:
